@@ -145,7 +145,7 @@ func verifHarness_C18_producerSchedules_T() { vC18Producer(1) }
 // C18 (consumer): each consumer interceptor runs exactly once per delivered message whatever
 // the reader's pace (including the slow-reader path of the response feeder).
 func vC18Consumer(mode int) {
-	c := vConsScenario(mode)
+	c := vConsScenarioSized(mode, vTier() > 0 && mode == 0) // the schedule variant keeps the small sizes (x chain x panic choices)
 	var order []int
 	chainLen := 1 + vChoose("chain", 2)
 	var chain []*vCountConsume
